@@ -466,6 +466,32 @@ let c01 op a =
   | "c01.wf", [_; e; ts; vs; b] -> c03 "c03.wf" [e; ts; vs; b]
   | _ -> "(unknown-op " ^ op ^ ")"
 
+(* ---------- C17 ---------- *)
+let c17 op a =
+  match op, a with
+  | "c17.order", [e; act] ->
+      let env = env_of e and actor = ty_of (parse_sx act) in
+      (match chase_actor env actor with
+       | None -> "(err)"
+       | Some defs ->
+           (* the implementation keeps the recursive set in a BTreeSet<&str>: byte order of the names = order of their hex spelling *)
+           let recs = List.sort String.compare (List.map hex (infer_rec env defs)) in
+           "(ok (" ^ String.concat " " (List.map hex defs) ^ ") (" ^ String.concat " " recs ^ "))")
+  | "c17.denotes", [e; act; fac; ini] ->
+      if String.length fac >= 6 && String.sub fac 0 6 = "error:" then "(ok)" else
+      let env = env_of e and actor = ty_of (parse_sx act) in
+      let two s = match parse_sx ("(" ^ s ^ ")") with L [x; y] -> (x, y) | _ -> failwith "two" in
+      let sx_env x = List.map (fun d -> match d with L [n; t] -> (unhex (atom n), ty_of t) | _ -> failwith "jsenv") (items x) in
+      let (fe, ft) = two fac and (ie, it) = two ini in
+      let fenv = sx_env fe and ienv = sx_env ie in
+      let jsactor = ty_of ft and jsinit = List.map ty_of (items it) in
+      let (args, body) = match actor with TClass (a0, b) -> (a0, b) | t -> ([], t) in
+      if not (eq_dec (env @ fenv) body jsactor) then "(service-differs)"
+      else if List.length args <> List.length jsinit then "(init-arity-differs)"
+      else if List.for_all2 (fun x y -> eq_dec (env @ ienv) x y) args jsinit then "(ok)" else "(init-differs)"
+  | "c19.esc_doc", [h] -> "(ok " ^ hex (esc_doc (unhex h)) ^ ")"
+  | _ -> "(unknown-op " ^ op ^ ")"
+
 let dispatch (op : string) (a : string list) : string =
   let base = if String.length op > 2 && String.sub op 0 2 = "m." then String.sub op 2 (String.length op - 2) else op in
   let prop = try String.sub base 0 (String.index base '.') with Not_found -> base in
@@ -479,6 +505,7 @@ let dispatch (op : string) (a : string list) : string =
   | "c11" -> c11 op a
   | "c13" | "c14" -> c14 op a
   | "c15" -> c15 op a
+  | "c17" | "c19" -> c17 op a
   | "c16" -> c16 op a
   | _ -> "(unknown-op " ^ op ^ ")"
 
